@@ -183,7 +183,30 @@ pub fn run(ctx: &Ctx) -> Report {
     } else {
       None
     };
+    // the (time range, space cell) sweep-line builder without flush (Model/SweepLine.v), element for element;
+    // the observations are given with their time range degraded to the time depth, as push() does
+    let sw_model: Option<String> = if kind <= 1 {
+      let mask = if sh_t == 0 { u64::MAX } else { !((1u64 << sh_t) - 1) };
+      let off = if sh_t == 0 { 0 } else { (1u64 << sh_t) - 1 };
+      let mut line = format!("STSW {} {}", ds, obs.len());
+      for o in &obs {
+        line.push_str(&format!(" {} {} {}", o.ta & mask, (o.tb + off) & mask, o.cell.unwrap()));
+      }
+      orc.ask(&line).strip_prefix("OK ").map(|x| x.trim().to_string())
+    } else {
+      None
+    };
     for (name, form, r) in outs {
+      if name == "from_ranges_and_fixed_depth_cells(cap=None)" {
+        if let (Ok(out), Some(m)) = (&r, &sw_model) {
+          rep.evaluations += 1;
+          let single = out.elems.iter().all(|(t, _)| t.len() == 1);
+          let got = format!("{} {}", out.elems.len(), out.elems.iter().map(|(t, sp)| format!("{} {} {}", t[0].0, t.last().unwrap().1, ranges_str(sp))).collect::<Vec<_>>().join(" ")).trim().to_string();
+          if !single || &got != m {
+            rep.violation("from_ranges_and_fixed_depth_cells (no flush): the result differs, element for element, from the model of the sweep-line builder", &format!("{} # path={}", case, name), &format!("{} (single-range elements: {})", got, single), m, "C09_sweep_line_builder_as_written");
+          }
+        }
+      }
       if name == "from_fixed_depth_cells(cap=None)" {
         if let (Ok(out), Some(m)) = (&r, &stb_model) {
           rep.evaluations += 1;
